@@ -8,8 +8,11 @@ import (
 	"crypto/sha256"
 	"encoding/binary"
 	"encoding/hex"
+	"encoding/json"
 	"fmt"
 	"math/big"
+	"os"
+	"strings"
 	"sync"
 
 	"github.com/ethereum/go-ethereum/crypto"
@@ -111,6 +114,8 @@ type SigReg struct {
 	m  map[glow.Signature]*sigInfo
 	n  int
 	kr *KeyRing
+
+	journal *os.File
 }
 
 func NewSigReg(kr *KeyRing) *SigReg {
@@ -124,7 +129,55 @@ func (r *SigReg) register(sig glow.Signature, by string, msg []byte) {
 		return
 	}
 	r.n++
-	r.m[sig] = &sigInfo{by: by, msg: sha256.Sum256(msg), tag: fmt.Sprintf("s%d", r.n)}
+	info := &sigInfo{by: by, msg: sha256.Sum256(msg), tag: fmt.Sprintf("s%d", r.n)}
+	r.m[sig] = info
+	if r.journal != nil {
+		fmt.Fprintf(r.journal, "%x %s %x %s\n", sig[:], by, info.msg[:], info.tag)
+	}
+}
+
+// Journal makes the registry write every new record through to a file, so
+// that another process (the parent of a child that gets killed) can read the
+// ground truth of the signatures the child made.
+func (r *SigReg) Journal(path string) error {
+	f, err := os.OpenFile(path, os.O_APPEND|os.O_CREATE|os.O_WRONLY, 0644)
+	if err != nil {
+		return err
+	}
+	r.mu.Lock()
+	r.journal = f
+	r.mu.Unlock()
+	return nil
+}
+
+// LoadJournal reads the records another process wrote; they replace records
+// for the same signature bytes.
+func (r *SigReg) LoadJournal(path string) {
+	b, err := os.ReadFile(path)
+	if err != nil {
+		return
+	}
+	r.mu.Lock()
+	defer r.mu.Unlock()
+	for _, line := range strings.Split(string(b), "\n") {
+		var sh, by, mh, tag string
+		if n, _ := fmt.Sscanf(line, "%s %s %s %s", &sh, &by, &mh, &tag); n != 4 {
+			continue
+		}
+		sb, _ := hex.DecodeString(sh)
+		mb, _ := hex.DecodeString(mh)
+		if len(sb) != 64 || len(mb) != 32 {
+			continue
+		}
+		var sig glow.Signature
+		var info sigInfo
+		copy(sig[:], sb)
+		copy(info.msg[:], mb)
+		info.by, info.tag = by, tag
+		r.m[sig] = &info
+		r.n += 1
+	}
+	r.n += 100000 // tags made from now on cannot collide with loaded ones
 }
 
 // Sign signs msg with the named key using the implementation's signer
@@ -195,6 +248,9 @@ func (r *SigReg) Describe(sig glow.Signature, expect []byte) SigDesc {
 		r.n++
 		info = &sigInfo{by: "none", tag: fmt.Sprintf("u%d", r.n)}
 		r.m[sig] = info
+		if r.journal != nil {
+			fmt.Fprintf(r.journal, "%x %s %x %s\n", sig[:], "none", info.msg[:], info.tag)
+		}
 	}
 	return SigDesc{By: info.by, Ok: info.by != "none" && info.msg == sha256.Sum256(expect), Tag: info.tag}
 }
@@ -202,4 +258,46 @@ func (r *SigReg) Describe(sig glow.Signature, expect []byte) SigDesc {
 // Tag returns the identity tag of signature bytes.
 func (r *SigReg) Tag(sig glow.Signature) string {
 	return r.Describe(sig, nil).Tag
+}
+
+// LoadOrSave makes parent and child processes share one set of keys: the
+// first caller writes the ring to path, later callers read it.
+func (k *KeyRing) LoadOrSave(path string) error {
+	type kp struct{ Pub, Priv string }
+	if b, err := os.ReadFile(path); err == nil {
+		m := map[string]kp{}
+		if err := json.Unmarshal(b, &m); err != nil {
+			return err
+		}
+		for name, v := range m {
+			var pub glow.PublicKey
+			var priv glow.PrivateKey
+			pb, _ := hex.DecodeString(v.Pub)
+			vb, _ := hex.DecodeString(v.Priv)
+			copy(pub[:], pb)
+			copy(priv[:], vb)
+			k.Add(name, pub, priv)
+		}
+		return nil
+	}
+	for _, n := range []string{"temp", "gca", "gca2", "x1", "d1", "d2", "d3", "d4", "d9"} {
+		k.Gen(n)
+	}
+	k.mu.Lock()
+	m := map[string]kp{}
+	for name, pub := range k.pub {
+		priv := k.priv[name]
+		m[name] = kp{hex.EncodeToString(pub[:]), hex.EncodeToString(priv[:])}
+	}
+	k.mu.Unlock()
+	b, _ := json.Marshal(m)
+	return os.WriteFile(path, b, 0644)
+}
+
+// Has reports whether a key of that name is known.
+func (k *KeyRing) Has(name string) bool {
+	k.mu.Lock()
+	defer k.mu.Unlock()
+	_, ok := k.pub[name]
+	return ok
 }
